@@ -142,7 +142,7 @@ class Builder:
         self.fixed, self.bind = {}, dict(bind or {})
         self.excl = dict(excl or {})
         self.cvar = dict(cvar or {})
-        self.assigned = {H.place(n["lhs"]) for n in walk(t.body) if n.get("k") in ("assign", "assign_op") and n.get("lhs") is not None}
+        self.assigned = {H.place(n["l"]) for n in walk(t.body) if n.get("k") in ("assign", "assignop") and n.get("l") is not None}
         self.build(S, s, e, e, fname)
         self.fixed, self.bind, self.assigned, self.excl, self.cvar, self.clos, self.pending = saved
         self.stack.pop()
@@ -231,14 +231,43 @@ class Builder:
         and becomes a two-state automaton"""
         from .interp import Interp, Opaque, Var, Unsupported, Diverged
         info = S[2]
-        clo = info.get("closure") or {}
-        params = clo.get("params") or []
-        if len(params) != 2 or any(p["pat"].get("k") != "bind" for p in params):
-            return False
-        flag, elem = params[0]["pat"]["name"], params[1]["pat"]["name"]
-        if (self.f.ty(params[0].get("ty")) or "") != "bool":
-            return False
-        adt = (self.f.ty(params[1].get("ty")) or "").lstrip("&")
+        for_mode = info.get("kind") == "for"
+        if for_mode:
+            # `for element in xs { if !flag .. {sep}; match element {..}; flag = .. }` with a mutable flag of the enclosing function
+            body_hir = info.get("body")
+            pat = info.get("pat") or {}
+            subs = pat.get("subs") or []
+            if body_hir is None or len(subs) != 1 or subs[0].get("k") != "bind":
+                return False
+            elem = subs[0]["name"]
+            assigned_in = {H.place(n["l"]) for n in walk(body_hir) if n.get("k") in ("assign", "assignop") and n.get("l") is not None}
+            cond_names = set()
+            for n in walk(body_hir):
+                if n.get("k") == "if":
+                    for m in walk(n["cond"]):
+                        if m.get("k") == "local" and (self.f.ty(m.get("ty")) or "") == "bool":
+                            cond_names.add(m["name"])
+            flags = sorted(assigned_in & cond_names)
+            if len(flags) != 1:
+                return False
+            flag = flags[0]
+            ety = None
+            for n in walk(body_hir):
+                if n.get("k") == "local" and n.get("name") == elem:
+                    ety = (self.f.ty(n.get("ty")) or "").lstrip("&")
+                    break
+            adt = ety
+            body_node = body_hir
+        else:
+            clo = info.get("closure") or {}
+            params = clo.get("params") or []
+            if len(params) != 2 or any(p["pat"].get("k") != "bind" for p in params):
+                return False
+            flag, elem = params[0]["pat"]["name"], params[1]["pat"]["name"]
+            if (self.f.ty(params[0].get("ty")) or "") != "bool":
+                return False
+            adt = (self.f.ty(params[1].get("ty")) or "").lstrip("&")
+            body_node = clo["body"]
         if adt not in self.f.adts or self.f.adts[adt].get("kind") != "enum":
             return False
         sinks = set(T.fn_tir(self.f, fname).sinks)
@@ -271,7 +300,9 @@ class Builder:
                 for sk in sinks:
                     env[sk] = Opaque("sink")
                 try:
-                    r = it.ev(clo["body"], env)
+                    r = it.ev(body_node, env)
+                    if for_mode:
+                        r = env.get(flag)
                 except Diverged:
                     continue
                 except Unsupported:
@@ -280,13 +311,13 @@ class Builder:
                     return False
                 rows[(fv, v["name"])] = (list(it.out), r)
         # initial flag
-        init = info.get("init")
+        init = info.get("init") if not for_mode else {"k": "local", "name": flag}
         iv = H.peel_ref(init) if isinstance(init, dict) else None
         starts = None
         if isinstance(iv, dict) and iv.get("k") == "lit" and iv["lit"]["t"] == "bool":
             starts = [bool(iv["lit"]["v"])]
         elif isinstance(iv, dict) and iv.get("k") == "local":
-            key = self.option_flag(fname, iv["name"])
+            key = self.option_flag(fname, iv["name"], allow_assigned=for_mode)
             if key is not None and key[0] in self.fixed:
                 some = self.fixed[key[0]]
                 starts = [(not some) if key[1] == "is_none" else some]
@@ -325,10 +356,10 @@ class Builder:
         a.add_eps(done, e)
         return True
 
-    def option_flag(self, fname, name):
+    def option_flag(self, fname, name, allow_assigned=False):
         """`let name = PLACE.is_none()` / `.is_some()`: ("some:PLACE", method)"""
         fn = self.f.fns.get(fname)
-        if not fn or name in self.assigned:
+        if not fn or (name in self.assigned and not allow_assigned):
             return None
         found = None
         for n in walk(fn["hir"]):
@@ -370,7 +401,16 @@ class Builder:
         return None
 
     def fold_depends(self, y, key, fname):
-        if y[0] != "loop" or not isinstance(y[2], dict) or y[2].get("kind") != "fold":
+        if y[0] != "loop" or not isinstance(y[2], dict) or y[2].get("kind") not in ("fold", "for"):
+            return False
+        if y[2].get("kind") == "for":
+            body_hir = y[2].get("body")
+            if body_hir is None:
+                return False
+            for nm in {H.place(n["l"]) for n in walk(body_hir) if n.get("k") in ("assign", "assignop") and n.get("l") is not None}:
+                k2 = self.option_flag(fname, nm, allow_assigned=True) if nm else None
+                if k2 is not None and k2[0] == key:
+                    return True
             return False
         iv = H.peel_ref(y[2]["init"]) if isinstance(y[2].get("init"), dict) else None
         if isinstance(iv, dict) and iv.get("k") == "local":
@@ -575,7 +615,7 @@ class Builder:
                 self.pending[info["sp"]] = (S[1], fname)
                 a.add_eps(s, e)
                 return
-            if info.get("kind") == "fold" and self.build_fold_table(S, s, e, fn_end, fname):
+            if info.get("kind") in ("fold", "for") and self.build_fold_table(S, s, e, fn_end, fname):
                 return
             lo = self.loop_over(S)
             if lo is not None and lo in self.iter_state:
